@@ -544,7 +544,12 @@ p_uthread_sleep (puint32 msec)
 #  else
 		if (P_UNLIKELY ((result = nanosleep (&time_req, &time_rem)) != 0)) {
 #  endif
+#  if defined (PLIBSYS_HAS_CLOCKNANOSLEEP) && !defined (P_OS_SYLLABLE)
+			/* clock_nanosleep() returns the error number, errno is left untouched */
+			if (result == EINTR)
+#  else
 			if (p_error_get_last_system () == EINTR)
+#  endif
 				time_req = time_rem;
 			else
 				return -1;
